@@ -75,6 +75,10 @@ HISTORY = {
     "C13-7": "caught as built",
     "C13-8": "caught as built (recoverable errors during initialisation, added after C13-2)",
     "C14-7": "same slip as C15-1 in the async writer: caught as built",
+    "C16-7": "missed at first (the transformation id never moved by more than one between two extractions of the statistics): initialisation attempts that are rejected first",
+    "C16-8": "caught as built (all flag combinations on all six presets)",
+    "C17-8": "missed before the fourth round's generator change was made (no step of exactly +-0 met a non-finite entry); caught by the bit-exact tie afterwards",
+    "C18-8": "missed before the direct ESH audit was widened beyond delta = 709 (exp overflow); caught with a failing input afterwards",
     "C14-8": "C14 itself stays silent (its cases do not flush in the middle of the sampling phase); caught by C15, whose statement it breaks (flushed data are corrupted by a later flush)",
 }
 
